@@ -29,10 +29,12 @@ type ReplayArg struct {
 	Int   string `json:"int,omitempty"`
 	Bool  *bool  `json:"bool,omitempty"`
 	Str   string `json:"str_hex,omitempty"`
+	Ints  string `json:"ints,omitempty"` // slice of integers: comma separated decimal elements
 	IsNil bool   `json:"nil,omitempty"`
 }
 
 type ReplayFile struct {
+	SearchCases  int         `json:"search_cases_without_counterexample,omitempty"`
 	Property     string      `json:"property"`
 	Obligation   string      `json:"obligation"`
 	Lemma        string      `json:"lemma"`
@@ -245,6 +247,8 @@ func (a ReplayArg) goLiteral() string {
 		return fmt.Sprintf("%s(%s)", t, a.Int)
 	case a.Type == "string":
 		return fmt.Sprintf("string(verifReplayBytes(%q, false))", a.Str)
+	case strings.HasPrefix(a.Type, "[]") && a.Type != "[]byte":
+		return fmt.Sprintf("%s{%s}", a.Type, a.Ints)
 	default:
 		return fmt.Sprintf("verifReplayBytes(%q, %v)", a.Hex, a.IsNil)
 	}
